@@ -29,8 +29,9 @@ Definition f1_read_w : query := (4, (6%N, 10%N), 2%positive).
    parent, indices in range) - any size, any loop nesting -, every list h of earlier queries
    and every query q: if the memoised evaluation (Model/Memo.v = loop_memo of scope.py, /repo HEAD)
    answers a after the history h, then the memo-free evaluation (Model/FlowGraph.v) is defined for
-   every fuel from some n on and its answer is the same: both KeyError, or rows with the same set
-   of alternatives.  No hypothesis on the memo state, the history or the fuel of the memoised run.
+   every fuel m >= fuel_bound g lvs = (max level + 1)(loops + 1)(flows + 1) + (loops + 1)(flows + 1)
+   + flows + 1 and its answer is the same: both KeyError, or rows with the same set of
+   alternatives.  No hypothesis on the memo state, the history or the fuel of the memoised run.
 
    The UNCONDITIONAL statement (no graph_wfb) is not proved and is not expected to hold for
    arbitrary chains (a scope-entry rule pointing into an inner loop is not monotone); graph_wfb is
@@ -43,11 +44,12 @@ Definition f1_read_w : query := (4, (6%N, 10%N), 2%positive).
    avoiding D and all walks; dependencies are loops being resolved, so a top-level answer has D = [].
    NOTE: the invariant planned in DESIGN.md 5/C04 (stored value = memo-free value under the layer's
    resolving set) is false: a stored value may be strictly larger (see notes/C04.md). *)
-Theorem C04_memo_transparent : forall g lvs km fuel h q st a st',
+Theorem C04_memo_transparent : forall g lvs km fuel h q st a st' m,
   graph_wfb g lvs = true ->
   run_history false g km fuel init_state h = Some st ->
   query_memo g km fuel st q = Some (a, st') ->
-  exists n, forall m, n <= m -> exists a',
+  fuel_bound g lvs <= m ->
+  exists a',
     query_pure g km m q = Some a' /\
     match a, a' with
     | Some r, Some r' => forall x, In x r <-> In x r'
@@ -55,21 +57,20 @@ Theorem C04_memo_transparent : forall g lvs km fuel h q st a st',
     | _, _ => False
     end.
 Proof.
-  intros g lvs km fuel h q st a st' Hwf Hh Hq.
-  destruct (memo_transparent_full g lvs km fuel h q st a st' Hwf Hh Hq) as [n Hn].
-  exists n. intros m Hm. destruct (Hn m Hm) as [a' [Ha' Hr]]. exists a'. split; [exact Ha'|].
-  destruct a, a'; simpl in Hr; auto.
+  intros g lvs km fuel h q st a st' m Hwf Hh Hq Hm.
+  destruct (memo_transparent_bound g lvs km fuel h q st a st' m Hwf Hh Hq Hm) as [a' [Ha' Hr]].
+  exists a'. split; [exact Ha'|]. destruct a, a'; simpl in Hr; auto.
 Qed.
 Print Assumptions C04_memo_transparent.
 
-(* the memo-free evaluation is total on well-formed graphs: some fuel suffices for every flow and
-   every resolving set (so "out of fuel" never hides an answer) *)
-Theorem C04_pure_total : forall g lvs km R f fl,
-  graph_wfb g lvs = true -> nth_error (flows g) f = Some fl ->
-  exists fuel e, names_pure (norm km) g fuel R f = Some e.
+(* fuel sufficiency: on a well-formed graph the memo-free evaluation is defined for every flow,
+   every resolving set and every fuel from the stated bound on ("out of fuel" never hides an answer) *)
+Theorem C04_pure_total : forall g lvs km R f fl m,
+  graph_wfb g lvs = true -> nth_error (flows g) f = Some fl -> fuel_bound g lvs <= m ->
+  exists e, names_pure (norm km) g m R f = Some e.
 Proof.
-  intros g lvs km R f fl Hwf Hf.
-  exact (names_pure_total (norm km) g (lvf lvs) (graph_wfb_sound g lvs Hwf) R f fl Hf).
+  intros g lvs km R f fl m Hwf Hf Hm.
+  exact (names_pure_defined_bound (norm km) g lvs R f fl m (graph_wfb_sound g lvs Hwf) Hf Hm).
 Qed.
 Print Assumptions C04_pure_total.
 
